@@ -533,10 +533,15 @@ impl World for PsetFlowWorld {
                 let n = p.urange(1, 12);
                 Case::Uid { tx, from_tx: p.coin(), ops: (0..n).map(|_| UidOp::draw(p, faulty)).collect() }
             }
-            "extract" => Case::Extract { pset: PsetSpec::draw_with_corpus(p, 6) },
+            "extract" => {
+                let mut pset = PsetSpec::draw_with_corpus(p, 6);
+                pset.at_count_limit = 0;
+                Case::Extract { pset }
+            }
             "elip" => {
                 let mut ps = PsetSpec::draw(p);
                 ps.elip = false;
+                ps.at_count_limit = 0;
                 Case::Elip { pset: ps, seed: p.u64(), hop: HopPlan::draw(p, faulty) }
             }
             "merge" => Case::Merge(merge::MergeCase::draw(p, faulty)),
